@@ -331,6 +331,21 @@ def run_harness(vharness, cmd, cases, timeout=1200, env=None, extra_args=(), sta
     return outs, last_rc, last_err
 
 
+def run_harness_par(vharness, cmd, cases, nproc=6, **kw):
+    """run_harness over `nproc` processes (round-robin split); same result shape"""
+    import concurrent.futures
+    if len(cases) < 4 * nproc:
+        return run_harness(vharness, cmd, cases, **kw)
+    parts = [cases[i::nproc] for i in range(nproc)]
+    outs, rc, err = {}, 0, ""
+    with concurrent.futures.ThreadPoolExecutor(max_workers=nproc) as ex:
+        for o, r, e in ex.map(lambda part: run_harness(vharness, cmd, part, **kw), parts):
+            outs.update(o)
+            rc = rc or r
+            err = err or e
+    return outs, rc, err
+
+
 def coq_eval(name, src, timeout=1200):
     """Compile a generated .v file against the built project; returns stdout."""
     w = workdir()
